@@ -16,6 +16,13 @@ CONFIGS = {
     # a merge source whose entries the merging mapping overrides: every merged pair is still constructed
     'merge3': dict(MaxNodes=3, LeafBases=['local', 'py/object/apply:'], ParentBases=['map'], Names=['res'], Vals=['g'],
                    MaxEntries=2, MustChain='TRUE', Kinds=['s', 'm'], LeafKinds=['s'], KeyFillers=['k', 'M']),
+    # the '=' default value of a mapping that carries a scalar type: the converters must be handed text, never an object the
+    # default value's own tag would select (python/name on a mapping-form default value, existing objects whose methods record)
+    'eqobj': dict(MaxNodes=2, LeafBases=['str', 'int', 'local', 'py/name:', 'py/object/apply:'],
+                  ParentBases=['null', 'bool', 'int', 'float', 'binary', 'timestamp', 'str', 'map', 'py/none', 'py/bool', 'py/str',
+                               'py/bytes', 'py/int', 'py/long', 'py/float', 'py/complex', 'py/name:'],
+                  Names=['trap', 'res'], Vals=['g', 'e'], MaxEntries=1, MustChain='TRUE', Kinds=['s', 'm'], LeafKinds=['s', 'm'],
+                  KeyFillers=['k', 'V'], ValFillers=['x', 'E']),
     # thorough only
     'pairw': dict(MaxNodes=2, LeafBases=ALL, ParentBases=ALL, Names=K.ALLNAMES, Vals=['g', 'b', 'e'], MaxEntries=1, MustChain='TRUE'),
     'triplew': dict(MaxNodes=3, LeafBases=['str', 'int', 'local', 'py/name:', 'py/object/apply:', 'merge', 'value'],
@@ -25,7 +32,7 @@ CONFIGS = {
                   ParentBases=['seq', 'map', 'set', 'omap', 'pairs', 'str', 'null', 'local', 'py/dict'], Names=['res', 'lazy'],
                   Vals=['g', 'e'], MaxEntries=2, MustChain='FALSE'),
 }
-TIERS = {'quick': ['solo', 'pair', 'pair2', 'triple', 'merge3'], 'thorough': ['solo', 'pairw', 'free2', 'triplew']}
+TIERS = {'quick': ['solo', 'pair', 'pair2', 'triple', 'merge3', 'eqobj'], 'thorough': ['solo', 'pairw', 'free2', 'triplew', 'eqobj']}
 
 
 def replay_file(path, pid):
